@@ -372,6 +372,17 @@ pub async fn run_client(client: usize, script: ClientScript, ldap: Ldap, opts: C
                     world::ev(EvKind::Note(format!("id counter set to {last}")));
                 }
             }
+            Step::SetIdCounterBefore { token, back } => {
+                if let Some(l) = ldap.as_ref() {
+                    let id = resolve_id(&IdRef::Token(token.clone()));
+                    if id > 0 {
+                        let (_, in_use) = l.verif_id_table();
+                        let last = (id - *back).max(0);
+                        l.verif_set_id_table(last, &in_use);
+                        world::ev(EvKind::Note(format!("id counter set to {last}")));
+                    }
+                }
+            }
             Step::Probe => {
                 let ret = match ldap.as_mut() {
                     Some(l) => Ret::Probe { last_id: l.last_id(), closed: l.is_closed() },
